@@ -3,15 +3,22 @@ LEVEL = "proof"
 RULE = ("one sweep of ExtrapolatedSmootherGive / Take (1 and 4 threads, garbage scratch vector) on random finest-level problems with "
         "at least three circles and three radial nodes (nr 7..13, nt in {4,8,12,16}, explicit splits for both parities); coarse "
         "nodes are compared BITWISE with the input, every other node must satisfy its sweep equation within 2^-30*S; both strategies "
-        "and thread counts agree.  Distinct by (nr, nt, nc, bc, geometry, profile)")
+        "and thread counts agree.  Code level: every stored entry of every line matrix of both classes, temp = rhs - A_sc^ortho x and "
+        "the sweep against GMGModel/ExSmootherCode.lean (take: bit for bit in double); for the give strategy additionally against the "
+        "scatter model GMGModel/ExSmootherGiveCode.lean (accumulating stores in the sequential node order, scatter kernels, sequential "
+        "sweep; offset tables re-extracted from the header): threads=1 every stored entry and every temp value after the four scatter "
+        "phases bit for bit in IEEE double (an entry that is not bit-identical is a disagreement) and within 2^-40*S of the exact "
+        "rational run, threads=4 (3-coloured parallel assembly) within 2^-40*S, sweep result against the scatter model's sweep "
+        "(double and rationals), coarse nodes of the model sweep bit-identical to the input.  Distinct by (nr, nt, nc, bc, geometry, profile)")
 
 
 def run(ctx):
-    ctx.prove(extra_modules=["GMGProofs.Props.C07c"])
+    ctx.prove(extra_modules=["GMGProofs.Props.C07c", "GMGProofs.Props.C07g"])
     h = ctx.build_harness("h_ops")
     ctx.pipe([h, "exsmooth", "60" if ctx.tier == "quick" else "1200", "13", "16"], "smooth", label="extrapolated-sweeps")
-    # code-level model (GMGModel/ExSmootherCode.lean): stored line matrices (tridiagonal / diagonal / CSR), temp = rhs - A_sc^ortho x,
-    # one sweep; take strategy bit for bit against the model evaluated in double
+    # code-level models: GMGModel/ExSmootherCode.lean (take: stored line matrices (tridiagonal / diagonal / CSR), temp = rhs - A_sc^ortho x,
+    # one sweep; bit for bit against the model evaluated in double) and GMGModel/ExSmootherGiveCode.lean (give: scatter assembly in the
+    # sequential node order, scatter kernels temp[..] -= .., sequential sweep; threads=1 bit for bit in double)
     quick = ctx.tier == "quick"
     hc = ctx.build_harness("h_smcode")
     ctx.pipe([hc, "exsmooth", "30" if quick else "400", "13", "16"], "exsmcode", label="ex-smoother-code-level")
@@ -19,5 +26,11 @@ def run(ctx):
     ctx.schedule_conflicts(("ExtrapolatedSmootherGive", "ExtrapolatedSmootherTake"))
     ctx.assumptions += ["spec-level theorems C07.*: see C06; code-level theorems C07c.* are about GMGModel/ExSmootherCode.lean, tied to "
                         "ExtrapolatedSmootherTake by the stage ex-smoother-code-level (stored entries and temp bit for bit in double)",
+                        "code-level theorems C07g.* are about GMGModel/ExSmootherGiveCode.lean (scatter assembly, scatter kernels, sequential sweep), tied to "
+                        "the single-threaded ExtrapolatedSmootherGive by the same stage (stored entries and temp after the four scatter phases bit for bit in "
+                        "double); the 3-coloured multi-threaded assembly / the For-loop parallel sweep apply the same stores in another order and are tied "
+                        "within 2^-40*S only (their schedule is C11/C12's subject).  C07g.exgive_sweep_eq_take_sweep: for admissible shapes (header tables, "
+                        "nc >= 3, nc + 3 <= nr, nr odd, nt even >= 4; across the origin nt % 4 = 0 and antipodally symmetric angular spacing) the modelled "
+                        "give sweep returns exactly the modelled take sweep, so every C07c theorem transfers (C07g.exgive_code_sweep_isExSweep)",
                         "bitwise invariance of coarse nodes is observed on the implementation; C07c.code_exsweep_coarse_fixed proves exact "
                         "equality for the code-level model over any field (nr odd, nt even >= 4, nc >= 2, nc + 3 <= nr, exact line solves)"]
